@@ -31,6 +31,8 @@ def wrap(ex, st, v):
         return CMatView(ex, st, v)
     if isinstance(v, tuple):
         return tuple(wrap(ex, st, x) for x in v)
+    if v.__class__.__name__ == "FrameV":
+        return FrameView(ex, st, v)
     if isinstance(v, PyList):
         return [wrap(ex, st, x) for x in v.items]
     if isinstance(v, PyDict):
@@ -216,3 +218,28 @@ class CMatView:
     @property
     def cols(self):
         return self._v.re.cols
+
+
+class FrameView:
+    """a pandas DataFrame value (pyvc.pdlib.FrameV): row labels, column labels, cell / NaN functions of (row position, column label)"""
+
+    def __init__(self, ex, st, v):
+        self._ex, self._st, self._v = ex, st, v
+
+    @property
+    def index(self):
+        return SeqView(self._ex, self._st, self._v.index)
+
+    @property
+    def cols(self):
+        return SeqView(self._ex, self._st, self._v.cols)
+
+    @property
+    def hascol(self):
+        return self._v.hascol
+
+    def cell(self, r, k):
+        return ty.sel(self._v.cell, r, k)
+
+    def nan(self, r, k):
+        return ty.sel(self._v.nan, r, k)
